@@ -25,6 +25,11 @@ func factsKeeper() {
 	const v1, v2 = "poc/engine/spacekeeper/capacity", "poc/engine.v2/spacekeeper/skchia"
 	intFact("plotterMaxChanSize", v1, "plotterMaxChanSize")
 	intFact("plotterMaxChanSizeV2", v2, "plotterMaxChanSize")
+	// the type byte of a plot file's header (`iota` continues from the first constant of the block)
+	intFact("mapTypeA", "poc/engine/massdb/massdb.v1", "MapTypeHashMapA")
+	intFact("mapTypeB", "poc/engine/massdb/massdb.v1", "MapTypeHashMapB")
+	intFact("lenMetaInfo", "poc/engine/massdb/massdb.v1", "LenMetaInfo")
+	strFact("regMassDBV1", v1, "regMassDBV1")
 	// every send on the plotter channel is a `select` case next to a `default` (never blocks under the state lock)
 	for _, x := range []struct{ lean, dir string }{{"keeperSendsNonBlocking", v1}, {"keeperSendsNonBlockingV2", v2}} {
 		p := loadPkg(x.dir)
